@@ -102,6 +102,7 @@ def work(job):
         src = Source(REPO)
         v = Verifier(src, reg, specs.make_specs(), MODELS)
         contracts.configure(v)
+        v.case_filter = extra
         if getattr(c, "trusted", False):
             return dict(key=key, status=("ok", ""), obligations=[], wall_s=0.0, assumptions={}, trusted={key: c.trusted_reason},
                         inlined=[], kind="assumed", trusted_contract=True)
@@ -190,10 +191,45 @@ def _match(pattern, name):
 
 
 def run_jobs(keys, timeout_ms, known, nproc=None):
-    jobs = [(k, timeout_ms, known, None) for k in keys]
+    sys.path.insert(0, VERIF)
+    import contracts
+    from .verify import case_combos
+    reg = contracts.load_all()
+    jobs = []
+    for k in keys:
+        c = reg.get(k)
+        combos = case_combos(c) if c is not None and getattr(c, "kind", "function") == "function" and c.cases else []
+        if len(combos) > 4 and not c.trusted:
+            jobs.extend((k, timeout_ms, known, combo) for combo in combos)  # one job per case: cases are independent
+        else:
+            jobs.append((k, timeout_ms, known, None))
+    res = _run(jobs, nproc)
+    # merge per-case results of one contract
+    merged = {}
+    order = []
+    for info in res:
+        k = info["key"]
+        if k not in merged:
+            merged[k] = info
+            order.append(k)
+            continue
+        m = merged[k]
+        m["obligations"].extend(info["obligations"])
+        m["wall_s"] = round(m["wall_s"] + info["wall_s"], 3)
+        for a, n in info["assumptions"].items():
+            m["assumptions"][a] = m["assumptions"].get(a, 0) + n
+        m["trusted"].update(info["trusted"])
+        m["inlined"] = sorted(set(m["inlined"]) | set(info["inlined"]))
+        if m["status"][0] == "ok" and info["status"][0] != "ok":
+            m["status"] = info["status"]
+    return [merged[k] for k in order]
+
+
+def _run(jobs, nproc=None):
     nproc = nproc or min(16, max(1, len(jobs)))
     if len(jobs) == 1 or os.environ.get("PVC_SERIAL"):
         return [work(j) for j in jobs]
+    jobs = sorted(jobs, key=lambda j: 0 if j[3] else 1)  # long (split) jobs first
     ctx = mp.get_context("fork")
     with ctx.Pool(nproc) as pool:
         return pool.map(work, jobs, chunksize=1)
